@@ -236,6 +236,9 @@ func (p *pool) run(reqs []*request, deadline time.Time, handle func(*request, *r
 		}
 		r := reqs[next]
 		next++
+		if !deadline.IsZero() {
+			r.Until = deadline.UnixNano()
+		}
 		return r
 	}
 	var wg sync.WaitGroup
@@ -283,6 +286,9 @@ func (p *pool) run(reqs []*request, deadline time.Time, handle func(*request, *r
 					firstErr = fmt.Errorf("worker: %s (request %s %s)", rp.Err, rq.Op, rq.Key)
 				}
 				if rp.Err == "" {
+					if rp.Cut {
+						cut = true
+					}
 					handle(rq, rp)
 				}
 				mu.Unlock()
@@ -372,15 +378,16 @@ func DefaultConfig(property string) Config {
 	if ev.Tier() == "thorough" {
 		cfg.Stateless = Bounds{MaxMembers: 3, MaxTopics: 3, MaxParts: 4, R: 10}
 		cfg.Families = []Family{
-			{"2topics", Bounds{MaxMembers: 3, MaxTopics: 2, MaxParts: 4, Depth: 4, DFSDepth: 2, R: 10}, 45},
-			{"3topics", Bounds{MaxMembers: 3, MaxTopics: 3, MaxParts: 2, Depth: 3, DFSDepth: 1, R: 10}, 35},
-			{"3topics-wide", Bounds{MaxMembers: 3, MaxTopics: 3, MaxParts: 3, Depth: 1, DFSDepth: 0, R: 10}, 20},
+			{"2topics-3parts", Bounds{MaxMembers: 3, MaxTopics: 2, MaxParts: 3, Depth: 6, DFSDepth: 2, R: 10}, 25},
+			{"2topics-4parts", Bounds{MaxMembers: 3, MaxTopics: 2, MaxParts: 4, Depth: 4, DFSDepth: 1, R: 10}, 20},
+			{"3topics-2parts", Bounds{MaxMembers: 3, MaxTopics: 3, MaxParts: 2, Depth: 3, DFSDepth: 1, R: 10}, 30},
+			{"3topics-3parts", Bounds{MaxMembers: 3, MaxTopics: 3, MaxParts: 3, Depth: 1, DFSDepth: 0, R: 10}, 25},
 		}
 	} else {
 		cfg.Stateless = Bounds{MaxMembers: 3, MaxTopics: 3, MaxParts: 3, R: 3}
 		cfg.Families = []Family{
-			{"2topics", Bounds{MaxMembers: 3, MaxTopics: 2, MaxParts: 3, Depth: 3, DFSDepth: 1, R: 3}, 50},
-			{"3topics", Bounds{MaxMembers: 3, MaxTopics: 3, MaxParts: 2, Depth: 1, DFSDepth: 0, R: 3}, 50},
+			{"2topics-3parts", Bounds{MaxMembers: 3, MaxTopics: 2, MaxParts: 3, Depth: 3, DFSDepth: 1, R: 3}, 45},
+			{"3topics-2parts", Bounds{MaxMembers: 3, MaxTopics: 3, MaxParts: 2, Depth: 2, DFSDepth: 0, R: 3}, 55},
 		}
 	}
 	if v := os.Getenv("VERIF_BAL_BOUNDS"); v != "" { // members,topics,parts,depth,dfsdepth,R: ONE family (experiments only)
@@ -531,7 +538,7 @@ func Run(property string) int {
 			dd = completedDepth
 		}
 		if dd >= 0 {
-			done, err := s.differential(spool, dd, diffEnd, info)
+			done, err := s.differential(spool, dd, diffEnd, famEnd, info)
 			if err != nil {
 				c.EngineError(err.Error())
 				return c.Finish()
@@ -671,7 +678,7 @@ func (s *Search) level(strat string, front []item, lvl int, deadline time.Time, 
 		s.cases += rp.Cases
 		s.evals += rp.Evals
 		s.edges += rp.Edges
-		st["states_expanded"] += len(rq.Keys)
+		st["states_expanded"] += rp.Done
 		st["cases"] += rp.Cases
 		st["evaluations"] += rp.Evals
 		for k, v := range rp.ByClass {
@@ -754,7 +761,7 @@ func (s *Search) onDeath(rq *request, d death) {
 // ---------------------------------------------------------------------------------------------
 // differential: the unpruned search must not see anything the pruned one has not
 
-func (s *Search) differential(spool []string, depth int, deadline time.Time, info map[string]interface{}) (bool, error) {
+func (s *Search) differential(spool []string, depth int, deadline, hardEnd time.Time, info map[string]interface{}) (bool, error) {
 	t0 := time.Now()
 	vfile := filepath.Join(s.pool.dir, fmt.Sprintf("visited-%d.bin", os.Getpid()))
 	var buf bytes.Buffer
@@ -781,7 +788,9 @@ func (s *Search) differential(spool []string, depth int, deadline time.Time, inf
 	var finds []findRec
 	raw, cases, evals, rootsDone := 0, 0, 0, 0
 	done, err := s.pool.run(reqs, deadline, func(rq *request, rp *response) {
-		rootsDone++
+		if !rp.Cut {
+			rootsDone++
+		}
 		raw += rp.RawStates
 		cases += rp.Cases
 		evals += rp.Evals
@@ -855,14 +864,20 @@ func (s *Search) differential(spool []string, depth int, deadline time.Time, inf
 		}
 	}
 	verdictGaps := len(wants) - gapCount
-	resolved, unresolved := 0, 0
+	resolved, unresolved, notExamined := 0, 0, 0
 	var late []item
 	resampleEvals := 0
 	pending := wants
-	for _, n := range []int{60, 600, 6000} {
+	// rounds 1-2: the canonical parent, orders sampled. Round 3: the canonical parent PINNED to the list
+	// order of the raw parent (generation still normalised) - an outcome may need a particular list
+	// order, which the raw parent has by construction and the order sampling reaches only with
+	// probability 1/(number of orders); what remains different from the raw parent is the generation.
+	pinnedResolved := 0
+	for round, n := range []int{60, 600, 6000} {
 		if len(pending) == 0 {
 			break
 		}
+		pinned := round == 2
 		rs := make([]*request, len(pending))
 		for i, w := range pending {
 			rs[i] = &request{Op: "resample", ID: i, B: s.b, Pool: spool, N: n}
@@ -871,12 +886,24 @@ func (s *Search) differential(spool []string, depth int, deadline time.Time, inf
 			} else {
 				rs[i].Key, rs[i].Ev, rs[i].WantSig = w.f.Key, w.f.Ev, w.f.Sig
 			}
+			if pinned {
+				rk := w.f.RawKey
+				if w.g != nil {
+					rk = w.g.RawParent
+				}
+				if ps, err := ParseKey(rk); err == nil {
+					ps.Gen = 1
+					rs[i].Key, rs[i].Raw = ps.Key(false), true
+				}
+			}
 		}
 		var still []want
 		found := make([]bool, len(pending))
-		_, err := s.pool.run(rs, time.Time{}, func(rq *request, rp *response) {
+		examined := make([]bool, len(pending))
+		_, err := s.pool.run(rs, hardEnd, func(rq *request, rp *response) {
 			resampleEvals += rp.Evals
 			found[rq.ID] = rp.Found
+			examined[rq.ID] = true
 			if rp.Found {
 				for _, f := range rp.Findings {
 					s.finding(f, "(differential re-sampling)", "bfs-resample")
@@ -887,11 +914,18 @@ func (s *Search) differential(spool []string, depth int, deadline time.Time, inf
 			return false, err
 		}
 		for i, w := range pending {
+			if !examined[i] {
+				notExamined++
+				continue
+			}
 			if !found[i] {
 				still = append(still, w)
 				continue
 			}
 			resolved++
+			if pinned {
+				pinnedResolved++
+			}
 			if w.g != nil && s.see(w.g.Child, w.g.Level) {
 				late = append(late, item{key: w.g.Child, path: "(found by differential re-sampling of " + w.g.Parent + ")"})
 			}
@@ -911,8 +945,10 @@ func (s *Search) differential(spool []string, depth int, deadline time.Time, inf
 				rs[i].Key, rs[i].Ev, rs[i].WantSig = w.f.RawKey, w.f.Ev, w.f.Sig
 			}
 		}
-		_, err := s.pool.run(rs, time.Time{}, func(rq *request, rp *response) {
+		seenRaw := 0
+		_, err := s.pool.run(rs, hardEnd, func(rq *request, rp *response) {
 			resampleEvals += rp.Evals
+			seenRaw++
 			if rp.Found {
 				unresolved++
 				if firstUnsound == "" {
@@ -925,6 +961,7 @@ func (s *Search) differential(spool []string, depth int, deadline time.Time, inf
 		if err != nil {
 			return false, err
 		}
+		notExamined += len(pending) - seenRaw
 	}
 	s.evals += resampleEvals
 
@@ -943,7 +980,7 @@ func (s *Search) differential(spool []string, depth int, deadline time.Time, inf
 			late = rest
 			continue
 		}
-		next, _, err := s.level(Sticky, here, lvl, deadline, [][]string{spool})
+		next, _, err := s.level(Sticky, here, lvl, hardEnd, [][]string{spool})
 		if err != nil {
 			return false, err
 		}
@@ -968,16 +1005,17 @@ func (s *Search) differential(spool []string, depth int, deadline time.Time, inf
 		"keys_seen_by_dfs_not_by_bfs":     gapCount,
 		"verdicts_seen_by_dfs_not_bfs":    verdictGaps,
 		"resolved_by_resampling_bfs_side": resolved,
+		"of_which_needed_the_raw_list_order": pinnedResolved,
 		"unresolved_raw_reproduces_canonical_does_not": unresolved,
 		"rare_not_reproduced_either_way":               rare,
 		"late_states_added_and_expanded":               lateCount,
 		"resampling_evaluations":                       resampleEvals,
 		"wall_s":                                       time.Since(t0).Seconds(),
-		"reading": "a key or verdict the unpruned raw search saw and the pruned canonical search did not is re-sampled on the canonical parent (60, 600, 6000 evaluations): " +
+		"reading": "a key or verdict the unpruned raw search saw and the pruned canonical search did not is re-sampled on the canonical parent (60, 600 evaluations with sampled orders, then 6000 pinned to the raw parent's list order but with the normalised generation): " +
 			"found = sampling gap of the nondeterministic Plan (state added and expanded); still missing after that while the RAW parent reproduces it within 600 = canonicalisation unsound (engine error)",
 	}
 	if unresolved > 0 {
 		return false, fmt.Errorf("differential: %d keys/verdicts reached by the unpruned raw search are not reproducible from the canonical state in 6660 evaluations: canonicalisation suspect (first: %s)", unresolved, firstUnsound)
 	}
-	return done, nil
+	return done && notExamined == 0, nil
 }
